@@ -32,6 +32,46 @@ type C08Case struct {
 	// BackWhere or BackItem); the options of a query hold inside every inner array as they do on a flat table
 	Vars   map[string]any `json:"vars,omitempty"`
 	Consts map[string]any `json:"consts,omitempty"`
+	// Shared: in the document handed to the engine, inner arrays with the same content are one and the same Go slice
+	// (a document built by Go code may hold an array twice); the result is what it is for separate copies
+	Shared bool `json:"shared,omitempty"`
+}
+
+// engineDoc is a private copy of the document for one engine run (with Shared: equal leaf arrays share storage).
+func (c *C08Case) engineDoc() map[string]any {
+	d := val.CopyMap(c.Doc)
+	if !c.Shared {
+		return d
+	}
+	var seen [][]any
+	var walk func(a []any)
+	walk = func(a []any) {
+		for i, x := range a {
+			in, ok := x.([]any)
+			if !ok {
+				continue
+			}
+			if isLeaf(in) && len(in) > 0 {
+				found := false
+				for _, s := range seen {
+					if val.Equal(any(s), any(in)) {
+						a[i] = s
+						found = true
+						break
+					}
+				}
+				if !found {
+					seen = append(seen, in)
+				}
+				continue
+			}
+			walk(in)
+		}
+	}
+	if nn, ok := d["nn"].([]any); ok {
+		walk(nn)
+	}
+	return d
 }
 
 // extra are the options every execution of the case is built with.
@@ -102,6 +142,7 @@ func genC08(t *rapid.T) any {
 	pt.Obj = "" // no object column in nested rows
 	c := &C08Case{Doc: map[string]any{"nn": gen(rapid.IntRange(2, 3).Draw(t, "depth"), "nn")}}
 	c.Twin = genC08Twin(t, c.Doc, pt)
+	c.Shared = rapid.IntRange(0, 2).Draw(t, "shared") == 0
 	c.Items = genSelectItems(t, pt, 3, 2, "sel")
 	c.Star = rapid.SampledFrom([]int{0, 0, 1}).Draw(t, "star")
 	if c.Star != 0 {
@@ -362,6 +403,9 @@ func isLeaf(a []any) bool {
 
 func checkC08(c *C08Case) Result {
 	res := Result{}
+	if c.Shared {
+		res.Labels = append(res.Labels, "equal-inner-arrays-share-storage")
+	}
 	nn, _ := c.Doc["nn"].([]any)
 	sql := c.sql("nn")
 	var flat []any
@@ -402,7 +446,7 @@ func checkC08(c *C08Case) Result {
 		res.Labels = append(res.Labels, "an-inner-array-fails")
 		res.NonTrivial = nonEmptyLeaves >= 1
 		for _, q := range []string{sql, c.sql("`mix=>nn`")} {
-			out := Run(val.CopyMap(c.Doc), q, Opts{}, c.extra()...)
+			out := Run(c.engineDoc(), q, Opts{}, c.extra()...)
 			res.Execs++
 			if out.Panic != "" || out.OK() {
 				res.Violation = fmt.Sprintf("%s\n  source %s\n  run directly on one of the inner arrays the query fails (%s), here it returned %s", q, val.JSON(nn), truncate(failed, 120), out.Describe())
@@ -415,7 +459,7 @@ func checkC08(c *C08Case) Result {
 		res.Discard = "query fails on a leaf array: " + truncate(failed, 60)
 		return res
 	}
-	out := Run(val.CopyMap(c.Doc), sql, Opts{}, c.extra()...)
+	out := Run(c.engineDoc(), sql, Opts{}, c.extra()...)
 	res.Execs++
 	if !out.OK() {
 		res.Violation = fmt.Sprintf("%s on %s\n  got %s", sql, val.JSON(nn), out.Describe())
@@ -426,7 +470,7 @@ func checkC08(c *C08Case) Result {
 		return res
 	}
 	msql := c.sql("`mix=>nn`")
-	mout := Run(val.CopyMap(c.Doc), msql, Opts{}, c.extra()...)
+	mout := Run(c.engineDoc(), msql, Opts{}, c.extra()...)
 	res.Execs++
 	if flat == nil {
 		flat = []any{}
